@@ -510,7 +510,11 @@ theorem process_internal_event_keeps_pending_covers (W : List Key) (p0 : Prog) (
     (instance/head, statement, spec, context) — so over a second instance of a helper flow, the next loop iteration, the
     restart of an activated flow, with any kind of referent.  Tie: every real registration on a reference statement is
     re-computed by `nameOf` on the observed referent and compared with the bucket the interpreter used (driver op
-    `C09.refname`), on every run. -/
+    `C09.refname`), on every run.
+
+    Wave 6 (second half of the section): cases 2 and 3 of the same function — the object given BY NAME
+    (`match some_flow.Start()`, `match SomeAction.Stop()`) and the bare event — `nameOfSpec`; same tie (every real
+    registration over an object given by name is re-computed from spec type, member and "the flow exists"). -/
 section refname
 open NemoVerif.RefName
 
